@@ -746,9 +746,10 @@ impl LinkRelay<OutputHandle> {
                             // The receiver will only settle after sending the disposition to
                             // the sender and receiving a disposition indicating settlement of the
                             // delivery from the sender.
-
-                            // is_terminal
-                            true
+                            //
+                            // Only a terminal outcome is answered with the settling disposition, a
+                            // non-terminal state is merely recorded
+                            is_terminal
                         }
                     }
                 };
